@@ -10,9 +10,9 @@ def W(text, ref, technique, level="exploration", note=None):
     return dict(level=level, text=text, ref=ref, technique=technique, note=note or (TB + "Real vs stub components are listed in every evidence file."))
 
 CLAIMED = {
-    "C01": W("Seeded deterministic simulation (C mode): the repository's own client main() runs as a simulated process (one or two incarnations, -n 1..8, both protocols, key as hex/base64) against a byzantine reference responder that applies 1-3 seeded forgery operators per response (the property's forgery space: bit flips/rewrites of each field, re-signing by other keys, cross-protocol contexts, splices, replays within and across runs, truncation, mutation, midpoint outside a genuine narrow window, wrong leaf/index/path length, drop, duplicate). Oracle (soundness direction only): the client printing a time for response i implies the lenient reference verifier accepts response i for request i under the pinned key; a rejected response must end the process non-zero; nonces come from the entropy seam and never repeat. Sampling of the forgery space, not enumeration.", "5 (C01)", "deterministic simulation with fault injection: byzantine-peer fault injection against the real client main(), reference-verifier oracle"),
+    "C01": W("Seeded deterministic simulation (C mode): the repository's own client main() runs as a simulated process (one or two incarnations, -n 1..8, both protocols, key as hex/base64) against a byzantine reference responder that applies 1-3 seeded forgery operators per response (the property's forgery space: bit flips/rewrites of each field, re-signing by other keys, cross-protocol contexts, splices, replays within and across runs, truncation, mutation, midpoint outside a genuine narrow window, wrong leaf/index/path length, drop, duplicate; one response in four in the classic layout without a top-level NONC). Oracle (soundness direction only): the client printing a time for response i implies the lenient reference verifier accepts response i for request i under the pinned key; a rejected response must end the process non-zero; nonces come from the entropy seam and never repeat. Sampling of the forgery space, not enumeration.", "5 (C01)", "deterministic simulation with fault injection: byzantine-peer fault injection against the real client main(), reference-verifier oracle"),
     "C02": W("Seeded deterministic simulation (W mode): 1-4 real Server workers on one simulated REUSEPORT port are fed seeded bursts of valid classic/IETF requests; every datagram a server socket emits is verified by the independent reference verifier for the request that elicited it; batch shape (distinct INDX, depth>=1 for n>=2) is checked per batch; a network/schedule fault profile runs separately; a grease profile checks the failing share for p in {1,10,50} (quick) / 1..=50 (thorough) within 6 sigma over >= 2000 replies. Sampling, not proof.", "5 (C02)", "deterministic simulation with fault injection: seeded search over batch compositions, arrival interleavings and worker schedules; reference-verifier oracle at the server-socket boundary"),
-    "C03": W("Seeded deterministic simulation (C mode): the real client main() against (a) an honest reference responder signing chosen midpoints (epoch..year 9999) with the request at a chosen index 0..63 of a batch of depth 0..6, and (b) 1-4 real Server workers under a swept simulated wall clock with up to 64 competing requests so that batches form. Oracle: exit status 0, exactly -n time lines, each equal to an independent civil-time formatter applied to the MIDP of the response actually delivered, verified flag iff a key was given.", "5 (C03)", "deterministic simulation: real client and real server in one simulated world, honest reference responder, simulated clock sweep"),
+    "C03": W("Seeded deterministic simulation (C mode): the real client main() against (a) an honest reference responder signing chosen midpoints (epoch..year 9999) with the request at a chosen index 0..63 of a batch of depth 0..6, and (b) 1-4 real Server workers under a swept simulated wall clock with up to 64 competing requests so that batches form; -z / -f (seven format strings) / neither, in any combination, on a machine in one of seven fixed-offset time zones; classic responses with and without the top-level NONC. Oracle: exit status 0, exactly -n time lines, each equal to an independent civil-time formatter applied to the MIDP of the response actually delivered (in UTC or at the machine's offset), verified flag iff a key was given.", "5 (C03)", "deterministic simulation: real client and real server in one simulated world, honest reference responder, simulated clock sweep"),
     "C07": W("Seeded deterministic simulation (W mode): storms of 40-300 datagrams per run (every length class 0..65507, truncated/extended/field-mutated requests, nonces of every aligned length, frame-length values, VER/SRV variants) plus full 64-request batches of maximum path depth; oracle at the server-socket boundary: every send is matched to the datagram that elicited it, which must be 1024..1500 bytes and satisfy the reference request predicate, and the response must not be longer than it. Absence of replies is decided at the end of the run after later sentinels were answered.", "5 (C07)", "deterministic simulation with fault injection: seeded datagram storms against real workers; request/response matching over the recorded history"),
     "C08": W("Seeded deterministic simulation (W mode): datagram storms x log level Off..Trace (set through log::set_max_level so that argument expressions of enabled records execute) x fault_percentage x batch_size x per-client/aggregated stats, with injected send_to/recv_from errors, receive-queue overflow, spurious poll returns, phantom datagrams and stalled tasks in the fault profile; oracle: no task of the server process panics, the run never hits the step cap, every valid request a worker has read gets its one send attempt (also behind a failed send in the same batch), every one of 8 valid sentinels sent after faults stop and of a final burst (awkward datagrams with one valid request behind them, nothing afterwards) is answered; one run in four boots the whole server under storms with accept/TCP-write/file errors, disk stalls and wall-clock steps.", "5 (C08)", "deterministic simulation with fault injection: storms, syscall faults and log-level dimension; panic and bounded-liveness oracle"),
     "C09": W("Seeded deterministic simulation (W and F modes): 1-16 real workers fed bursts below/at/above batch_size from 1-96 sockets with duplicate nonces across sockets and invalid datagrams interleaved; history check at quiescence: every standard valid request received has exactly one send (to its source, verifying for that very request, in its own protocol), invalid datagrams none, no batch mixes protocols, nothing is left unread in a worker socket 1 simulated second after the last arrival. A long-run profile streams 700-70000 distinct requests in seeded groups through 1-2 workers (more than 65536 requests / batches per worker) for count-dependent behaviour; a grease profile keeps the exactly-once oracle under deliberate errors.", "5 (C09)", "deterministic simulation with fault injection: exactly-once / right-recipient check over the recorded history at the server-socket boundary"),
@@ -22,9 +22,9 @@ CLAIMED = {
     "C14": W("Fault enumeration on the two existing seams (KmsProvider and the stored blob), no scheduler: per sampled (plaintext length, provider, wrapped length) every single-bit flip, single-byte change, truncation length, extension and provider fault on either call is evaluated against the real encrypt_seed/decrypt_seed; DEK and nonce are drawn through the simulated entropy seam so the leak check knows them.", "5 (C14)", "fault injection on the KmsProvider seam and the stored blob: exhaustive fault-position enumeration per sampled configuration", level="fault_enumeration"),
     "C15": W("Seeded deterministic simulation (F mode): one boot of the real main() per evaluation over the documented option space (num_workers 1..=16 explicit or defaulted, health_check_port, batch_size, fault_percentage, status_interval, client_stats, file/env, /repo/example.cfg read at run time), then round-robin traffic and TCP health connections at seeded instants. Oracle: spawned and live workers = configured, no panic, no exit, every worker answers (distinct online keys), every health connection gets the fixed response and EOF within 1 simulated second (also those queued behind a connection its client has reset); start-ups with a port held by another program must end the process rather than leave it running without workers.", "5 (C15)", "deterministic simulation: configuration-space exploration by booting the real binary in a simulated machine; thread/mutex/bind cascade reproduced by the simulated kernel"),
     "C16": W("The grid of documented keys x boundary values x {file, environment} is enumerated completely; each point boots the real main() in the simulator and reads the effective values off the simulated machine (addresses bound, threads spawned, TCP listeners, timer periods, largest batch of a 200-request burst, failing-reply share, announced key) cross-checked with the start-up log; out-of-range, missing, unknown => the process must end non-zero before any socket is bound.", "5 (C16)", "deterministic simulation: exhaustive configuration grid, effective settings observed at the simulated kernel"),
-    "C17": W("Seeded deterministic simulation (W and F modes): the kernel tap (what each worker received and answered per source address, bytes, failed sends, accepted health connections) is compared with recorder state + pushed snapshots (W, via hook H7 and the real stats queue) and with the real Reporter's persisted CSV files (F). Counters + overflow count (hook H9) must equal the events when no snapshot was published and never exceed them otherwise; a cleared recorder must report zero overflows; the reporter must never create a statistics file path twice; runs with dozens of reports. Claimed part: system-level conservation; enumeration of recorder call sequences on bare objects is not claimed.", "5 (C17)", "deterministic simulation with fault injection: conservation between kernel tap, worker recorders, stats queue and reporter output"),
+    "C17": W("Seeded deterministic simulation (W and F modes): the kernel tap (what each worker received and answered per source address, bytes, failed sends, accepted health connections) is compared with recorder state + pushed snapshots (W, via hook H7 and the real stats queue) and with the real Reporter's persisted CSV files (F). Counters + overflow count (hook H9) must equal the events when no snapshot was published and never exceed them otherwise; a cleared recorder must report zero overflows; the reporter must never create a statistics file path twice; runs with dozens of reports; a directly driven real Reporter (harness in the role of the workers) merging snapshots with magnitudes beyond 32 bits, every persisted per-address sum equal to what was handed over. Claimed part: system-level conservation; enumeration of recorder call sequences on bare objects is not claimed.", "5 (C17)", "deterministic simulation with fault injection: conservation between kernel tap, worker recorders, stats queue and reporter output"),
     "C18": W("Seeded deterministic simulation (F mode): real main() with num_workers {1,2,4,8,16} on one REUSEPORT group, 1-64 closed-loop clients, seeded schedule strategies (uniform/sticky/starve-one), kernel distribution (flow hash/arbitrary), service-time factor, delay/duplication/stall faults and send errors during start-up and early load, clients sending boundary variants of valid requests (1500/1496/1028 bytes, SRV present, several offered versions); oracle: exactly-once + validity under the single long-term key at both the server boundary and each client, no worker dies, every request sent after faults stop is answered within 1 simulated second.", "5 (C18)", "deterministic simulation with fault injection: seeded search over thread schedules and kernel datagram distribution"),
-    "C19": W("Seeded deterministic simulation (F mode): for baselines (workers {1,4,16} x client_stats off/on x load idle/closed-loop/flood) the scheduling points after all workers serve are counted and SIGINT/SIGTERM is delivered at point k (40 stratified per baseline quick, 600 or all thorough); oracle: exit status 0 within 3 simulated seconds of the handler, no panic output, every response emitted before exit verifies. Loads: idle, long idle (20-60 simulated s), closed-loop, open-loop flood of a slow worker (valid / unanswerable / mixed / garbage / empty / short datagrams), health checks while accept fails with EMFILE, recv_from failing persistently, statistics file creation failing; a handled signal interrupts blocked polls (EINTR) with a seeded choice.", "5 (C19)", "deterministic simulation with fault injection: signal delivery enumerated over the scheduling points of baseline executions"),
+    "C19": W("Seeded deterministic simulation (F mode): for baselines (workers {1,4,16} x client_stats off/on x load idle/closed-loop/flood) the scheduling points after all workers serve are counted and SIGINT/SIGTERM is delivered at point k (40 stratified per baseline quick, 600 or all thorough); oracle: exit status 0 within 3 simulated seconds of the handler, no panic output, every response emitted before exit verifies. Loads: idle, long idle (20-60 simulated s), closed-loop, open-loop flood of a slow worker (valid / unanswerable / mixed / garbage / empty / short datagrams), health checks while accept fails with EMFILE, recv_from failing persistently, statistics file creation failing, a slow disk under the reporter (rounds longer than its sleep; disk time added to the deadline), floods alternating both protocols with runt datagrams; a handled signal interrupts blocked polls (EINTR) with a seeded choice.", "5 (C19)", "deterministic simulation with fault injection: signal delivery enumerated over the scheduling points of baseline executions"),
     "C20": W("Seeded deterministic simulation (W and F modes) with per-run random seeds, log levels Off..Trace, valid/invalid/greased traffic, file and environment sources, start-ups that fail (validation, ports held by another program, numeric-looking or malformed seeds, key-management providers named with a plaintext seed), socket/TCP/file errors while traffic flows, restart + signal: every datagram, log record, stdout/stderr byte, TCP byte and written file is scanned for the seed, the clamped scalar and the unclamped SHA-512 half in raw/hex/base64 forms. The same monitor is on inside every other W/F check.", "5 (C20)", "deterministic simulation: always-on secret-scan monitor over everything the simulated server emits"),
 }
 
